@@ -91,6 +91,8 @@ pub enum TextLayout {
     WithComments,
     Crlf,
     TabsAndBlankLines,
+    /// comments start right after a number, without a blank: `56.10# northernmost`
+    GluedComments,
 }
 
 /// Gravsoft text: header `lat_s lat_n lon_w lon_e dlat dlon`, then rows north to south, west to east, bands
@@ -98,10 +100,10 @@ pub enum TextLayout {
 pub fn gravsoft_text(g: &GeoDeg, bands: usize, file_value: &dyn Fn(usize, usize, usize) -> f64, layout: TextLayout) -> String {
     let eol = if layout == TextLayout::Crlf { "\r\n" } else { "\n" };
     let mut s = String::new();
-    if layout == TextLayout::WithComments {
+    if layout == TextLayout::WithComments || layout == TextLayout::GluedComments {
         s.push_str("# a generated Gravsoft grid\n");
     }
-    s.push_str(&format!("{:?} {:?} {:?} {:?} {:?} {:?}{}", g.lat_s, g.lat_n, g.lon_w, g.lon_e, g.dlat, g.dlon, if layout == TextLayout::WithComments { "   # header" } else { "" }));
+    s.push_str(&format!("{:?} {:?} {:?} {:?} {:?} {:?}{}", g.lat_s, g.lat_n, g.lon_w, g.lon_e, g.dlat, g.dlon, match layout { TextLayout::WithComments => "   # header", TextLayout::GluedComments => "# header 1 2 3", _ => "" }));
     s.push_str(eol);
     if layout == TextLayout::TabsAndBlankLines {
         s.push_str(eol);
@@ -122,6 +124,9 @@ pub fn gravsoft_text(g: &GeoDeg, bands: usize, file_value: &dyn Fn(usize, usize,
         if layout != TextLayout::OneValuePerLine {
             if layout == TextLayout::WithComments && r % 2 == 0 {
                 s.push_str("  # end of row");
+            }
+            if layout == TextLayout::GluedComments {
+                s.push_str(if r % 2 == 0 { "# end of row" } else { "#north 7" });
             }
             s.push_str(eol);
             if layout == TextLayout::TabsAndBlankLines && r % 2 == 1 {
